@@ -333,27 +333,35 @@ EXTRA = {
            'destination / origin are compared through destination / sender accessors (C06.11).',
     'C07': ' Further: the tokeniser succeeds only when the whole rule text was consumed (C07.2b); the disconnect sweep '
            'removes only rules owned by or naming the departing connection (C07.4b); argN bytes compared over arg_lens[i]; '
-           'a name in sender= / destination= stands for its primary owner only (C07.9).',
+           'a name in sender= / destination= stands for its primary owner only (C07.9); keys compared by whole-string '
+           'equality (C07.10); the rule tables survive a failed growth (C07.11).',
     'C09': ' Further: in bus_dispatch_matches the gate is the last non-OOM refusal before staging (C09.1); pending-reply '
-           'list never recreated (C09.6); gate told every party (C09.7).',
+           'list never recreated (C09.6); gate told every party (C09.7); list operations decided on all small lists '
+           '(C09.9); the expiry timer is armed for "now" whenever it has to be (C09.10).',
     'C10': ' Further: header edits use the message\'s byte order (C10.7); a held request\'s connection is used only '
            'while connected (C10.8); bus default limits do not exceed the library\'s (C10.9); disabled watches are '
-           'edge-triggered with an empty mask (C10.10).',
+           'edge-triggered with an empty mask (C10.10); UTF-8 witnesses (C10.11); counters notify exactly on crossings '
+           '(C10.12); scan loops and the assertions restating them agree (C10.13).',
     'C11': ' Further: with descriptors pending the read budget is exactly what completes the current message (C11.6); '
-           'errno predicates test the errno they are named after (C11.8).',
+           'errno predicates test the errno they are named after (C11.8); back-pressure counters notify exactly on '
+           'crossings (C11.9); read wrappers grow the buffer once and cut it back on every exit (C11.10).',
     'C12': ' Further: unknown-field stripping covers 11..255 with an unsigned code (C12.8).',
     'C13': ' Further: a refused request holds no pending-reply slot (C13.7); counter containers never recreated (C13.6); '
            '<limit> names and BusLimits fields one to one (C13.8); limit setters only lower the request (C13.9).',
     'C14': ' Further: references taken are released on the failure paths that follow (C14.2g); a preallocated hash '
-           'entry is consumed or freed before it is forgotten (C14.9).',
+           'entry is consumed or freed before it is forgotten (C14.9); list operations decided on all small lists '
+           '(C14.11); a place in the owner queue is one reference (C14.12); container growth is all-or-nothing (C14.13).',
     'C15': ' Further: read budget while descriptors are pending (C15.8); descriptor passing marked negotiated only on '
-           'AGREE_UNIX_FD / when answering NEGOTIATE_UNIX_FD (C15.9); limit setters only lower the request (C15.11).',
+           'AGREE_UNIX_FD / when answering NEGOTIATE_UNIX_FD (C15.9); limit setters only lower the request (C15.11); the '
+           'descriptor counter notifies exactly on crossings (C15.12).',
     'C16': ' Further: struct and dict-entry brackets nest -- a closing bracket matches the innermost open one (C16.5).',
     'C17': ' Further: the I/O path is released on every path on which it was acquired (C17.8); serials are written in '
-           'the message\'s byte order (C17.9); condition variables wait on the clock their deadline was read from (C17.10).',
+           'the message\'s byte order (C17.9); condition variables wait on the clock their deadline was read from '
+           '(C17.10); hash front ends convert keys alike (C17.11); callbacks get the data registered with them (C17.12).',
     'C18': ' Further: capture and route name the same parties (C18.8); a name in a monitor\'s filter stands for its '
            'primary owner only (C18.9).',
-    'C08': ' Further: every parser field an element handler sets is merged from included files (C08.7).',
+    'C08': ' Further: every parser field an element handler sets is merged from included files (C08.7); the cookie '
+           'response is compared as a whole (C08.11); cookie ages use the wall clock (C08.12).',
     'C19': ' Further: pending activations survive reload (C19.6); a held request\'s connection is used only while '
            'connected (C19.7); the helper\'s parser records each element\'s own type (C19.8).',
 }
